@@ -266,7 +266,43 @@ fn not_args() -> Vec<G> {
         // a call with two variables, one of them a body-only variable that has the *name* of the query's variable
         call("e", vec![v("$X"), v("$Z")]),
         call("e", vec![v("$Y"), v("$X")]),
+        // order comparisons that have no answer for a reason other than the order: atom against number, unbound operand
+        G::Cmp(Rel::Gt, v("$X"), T::Int(3)),
+        G::Cmp(Rel::Le, v("$Y"), T::Int(3)),
     ]
+}
+
+fn text_expressible(g: &G) -> bool {
+    match g {
+        G::Not(inner) | G::Time(inner) => !matches!(**inner, G::And(_) | G::Or(_)) && text_expressible(inner),
+        G::And(gs) | G::Or(gs) => gs.iter().all(text_expressible),
+        _ => true,
+    }
+}
+
+/// timeg: time(G) among backtracking goals (C05: silent after exhaustion; time(G) answers once).
+pub fn timeg(_level: u8, f: &mut dyn FnMut(Case)) {
+    let leaves = vec![
+        call("q", vec![v("$X")]),
+        call("r", vec![v("$X")]),
+        G::Time(Box::new(call("q", vec![v("$X")]))),
+        G::Time(Box::new(call("r", vec![v("$Y")]))),
+        G::Time(Box::new(G::And(vec![call("q", vec![v("$X")]), call("r", vec![v("$X")])]))),
+        G::Time(Box::new(G::Fail)),
+        G::Fail,
+        G::Unify(v("$X"), a()),
+    ];
+    let bodies: Vec<G> = bodies_upto(&leaves, 3).into_iter().filter(|b| b.has_time()).collect();
+    let queries = vec![cplx("p", vec![v("$Z")]), cplx("p", vec![b()])];
+    for bdy in &bodies {
+        let mut p = edb();
+        p.push(rule("p", vec![v("$X")], bdy.clone()));
+        f(Case { family: "timeg", prog: p.clone(), queries: queries.clone() });
+        if bdy.leaves() <= 2 {
+            p.push(fact("p", vec![c()]));
+            f(Case { family: "timeg", prog: p, queries: queries.clone() });
+        }
+    }
 }
 
 /// not: not(G) before/after binding goals, inside and/or.
@@ -292,6 +328,10 @@ pub fn not(level: u8, f: &mut dyn FnMut(Case)) {
         p.push(fact("e", vec![b(), b()]));
         p.push(rule("p", vec![v("$X")], bdy.clone()));
         f(Case { family: "not", prog: p.clone(), queries: queries.clone() });
+        // the same program built from source text (where the text can say it: not((a, b)) cannot be written)
+        if level >= 1 && bdy.leaves() <= 2 && text_expressible(bdy) {
+            f(Case { family: "not@infix", prog: p.clone(), queries: queries.clone() });
+        }
         if bdy.leaves() <= 2 {
             // a second clause, and the not-clause called from a wrapper
             p.push(fact("p", vec![c()]));
@@ -319,11 +359,15 @@ pub fn output(level: u8, f: &mut dyn FnMut(Case)) {
         // a call to a predicate without clauses, a format with more markers than values
         call("nosuch", vec![v("$X")]),
         G::Print(vec![atom("[%s:%s]"), v("$X")]),
+        // a goal that succeeds twice without binding anything (t(k) is stated twice)
+        call("t", vec![atom("k")]),
     ];
     let bodies: Vec<G> = bodies_upto(&leaves, n).into_iter().filter(|b| b.has_output()).collect();
     let queries = vec![cplx("p", vec![v("$Z")]), cplx("p", vec![a()])];
     for bdy in &bodies {
         let mut p = edb();
+        p.push(fact("t", vec![atom("k")]));
+        p.push(fact("t", vec![atom("k")]));
         p.push(rule("p", vec![v("$X")], bdy.clone()));
         f(Case { family: "output", prog: p.clone(), queries: queries.clone() });
         if bdy.leaves() <= 2 {
@@ -347,6 +391,19 @@ pub fn output(level: u8, f: &mut dyn FnMut(Case)) {
         vec![atom("%s%s"), v("$X")],
         vec![atom("%s and %s.")],
     ];
+    // the format string reaches print through a variable (bound in the body, or fetched from a fact)
+    for (fmt, args) in [("%s+%s", vec![v("$X"), v("$Y")]), ("<%s>", vec![v("$X")]), ("plain ", vec![v("$X")])] {
+        let mut p = edb();
+        p.push(fact("template", vec![atom(fmt)]));
+        let mut pa = vec![v("$F")];
+        pa.extend(args.clone());
+        p.push(rule("p", vec![v("$X")], G::And(vec![call("q", vec![v("$X")]), call("r", vec![v("$Y")]), G::Unify(v("$F"), atom(fmt)), G::Print(pa.clone()), G::Nl])));
+        f(Case { family: "output", prog: p.clone(), queries: queries.clone() });
+        let mut p2 = edb();
+        p2.push(fact("template", vec![atom(fmt)]));
+        p2.push(rule("p", vec![v("$X")], G::And(vec![call("template", vec![v("$F")]), call("q", vec![v("$X")]), call("r", vec![v("$Y")]), G::Print(pa), G::Nl])));
+        f(Case { family: "output", prog: p2, queries: queries.clone() });
+    }
     for fm in fmts {
         let mut p = edb();
         p.push(rule(
